@@ -1,7 +1,7 @@
 package main
 
-// WorkerIR: the four worker loops and the four read loops of vflow/{ipfix,netflow_v9,netflow_v5,sflow}.go,
-// statement by statement, mapped to the instruction set of lean/Vflow/Model/Pipeline.lean
+// WorkerIR: the four worker loops and the four read loops (loop body and what follows the loop in run())
+// of vflow/{ipfix,netflow_v9,netflow_v5,sflow}.go, statement by statement, mapped to the instruction set of lean/Vflow/Model/Pipeline.lean
 // (Instr / RInstr). Fail closed: a statement that matches no pattern becomes
 // `.unrecognised "<go text>"`, which `Canonical` rejects.
 //
@@ -322,12 +322,31 @@ func genWorkerIR(repo string) (genFile, error) {
 		items := append(extra, g.out...)
 		fmt.Fprintf(&sb, "/-- `%s` (%s) -/\ndef %s : Prog := { initGet := %s, loop := %s }\n\n", p.worker, p.file, p.worker, initGet, leanList(items, "  "))
 
-		// ---- read loop: the `for !x.stop { … }` of run()
+		// ---- read loop: the `for !x.stop { … }` of run(), and the statements of run() after it
 		var rloop *ast.ForStmt
+		tail := []string{}
 		for _, st := range run.Body.List {
 			if fs, ok := st.(*ast.ForStmt); ok && fs.Init == nil && fs.Post == nil && fs.Cond != nil &&
 				nodeSrc(fset, fs.Cond) == "!"+p.counted+".stop" {
+				if rloop != nil {
+					tail = append(tail, ".unrecognised \"a second read loop\"")
+				}
 				rloop = fs
+				continue
+			}
+			if rloop == nil {
+				continue // set-up before the loop
+			}
+			switch s := nodeSrc(fset, st); {
+			case s == "close("+p.udpCh+")":
+				tail = append(tail, ".closeUDP")
+			case g.isLog(st):
+				tail = append(tail, ".log")
+			default:
+				if len(s) > 160 {
+					s = s[:160] + "…"
+				}
+				tail = append(tail, ".unrecognised "+strconv.Quote("after the read loop: "+s))
 			}
 		}
 		var r []string
@@ -360,6 +379,7 @@ func genWorkerIR(repo string) (genFile, error) {
 			}
 		}
 		fmt.Fprintf(&sb, "/-- the read loop of `(*%s).run` (%s) -/\ndef %sRun : List RInstr := %s\n\n", p.recv, p.file, p.name, leanList(r, "  "))
+		fmt.Fprintf(&sb, "/-- the statements of `(*%s).run` after the read loop (%s) -/\ndef %sRunTail : List RInstr := %s\n\n", p.recv, p.file, p.name, leanList(tail, "  "))
 	}
 	sb.WriteString("end Vflow.Gen\n")
 	return genFile{name: "WorkerIR", body: sb.String()}, nil
